@@ -400,5 +400,5 @@ def plan(plan, tier, seed):
         "that every generated struct passes (out, operands) to compile_*op! in the order its factory `new` reads them back is NOT decided here",
         "Interpreter::run_program does not re-solve the loaded plan: the 'result' of a loaded program is the constant the compiler stored for the last out cell",
     ]
-    plan.undecided_clauses += ["C06: 'never panics' (run_program has todo!() for Ret, unwraps in compile_register*), inventory registration, name agreement of every struct, compile_varop!, matrix/set/table constants"]
+    plan.undecided_clauses += ["C06: 'never panics' (run_program has todo!() for Ret, unwraps in compile_register*), inventory registration, name agreement of every struct, compile_varop!, matrix constants (table / set / tuple constants: C06.verus.container_const.*); that run_program's factories build the function the compiler serialised (registry keyed by name hash: assumed collision-free)"]
     plan.level = "proof"
